@@ -43,6 +43,7 @@ type Scenario struct {
 	GrowBy            int  // > 0: the last interceptor also pads the value by this many bytes (a message may outgrow MaxMessageBytes)
 	SyncCloseMid      bool // sync producer: Close is called while the calls of the last burst (one goroutine per message) are pending
 	NilIcept          bool // the interceptor list has a nil slot after its first entry (a disabled interceptor)
+	FlipPartitioner   bool // a partitioner that does not require consistency: the message's own partition when first asked, the next one if asked again for the same message (focus C05)
 	ErrorsOff         bool // Producer.Return.Errors = false; the recycled structs are those of messages that failed after a retry (focus C18)
 	Recycle           int  // the last Recycle messages are submitted by re-using the structs of earlier messages that already have their outcome
 	ReuseConfig       bool // after the producer has closed, a second producer is built from the SAME Config and sends two messages
@@ -96,8 +97,8 @@ type Result struct {
 	closeNow   int32 // set by the hook sink when CloseAtEvent is reached
 	CloseHang  bool
 	evSnap     func() []Event // the hook events so far (copy)
-	Reuse      []string // interceptor marks of the messages of a second producer built from the same Config
-	SyncStuck  int      // sync producer: calls that never returned after Close was called while they were pending
+	Reuse      []string       // interceptor marks of the messages of a second producer built from the same Config
+	SyncStuck  int            // sync producer: calls that never returned after Close was called while they were pending
 	ClosedOK   bool
 	SendPanic  string
 	GoPanic    string // a goroutine of the producer panicked (sarama.PanicHandler)
@@ -378,6 +379,17 @@ func Gen(seed uint64, focus string) *Scenario {
 			}
 		}
 	}
+	// (focus C05 only, generator of its own) every partition has a leader throughout: the partitioner below behaves like the
+	// manual one as long as it is asked once per message
+	if rf := hlib.NewRand(seed ^ 0x666c6970); focus == "C05" && sc.Idempotent && sc.Partitions >= 2 && sc.RetryMax >= 2 && sc.LeaderlessAtStart < 0 && !sc.Sync && rf.Chance(1, 2) {
+		ok := true
+		for _, f := range sc.Faults {
+			if f.LoseLeaderMs != 0 {
+				ok = false
+			}
+		}
+		sc.FlipPartitioner = ok
+	}
 	// (focus C18 only, generator of its own) the application does not read errors: Return.Errors is off, and the structs it
 	// re-uses are those of messages the producer dropped after at least one retry
 	if re := hlib.NewRand(seed ^ 0x6572726f72736f66); focus == "C18" && sc.Recycle > 0 && re.Chance(2, 3) {
@@ -399,7 +411,7 @@ func (sc *Scenario) String() string {
 	}
 	return fmt.Sprintf("seed=%d focus=%s brokers=%d parts=%d retry=%d flush=%d/%d/%dms max=%d maxbytes=%d idem=%v acks=%d ver=%s buf=%d codec=%d icepts=%d/%d msgs=%d closeAfter=%d faults=[%s] sync=%v",
 		sc.Seed, sc.Focus, sc.Brokers, sc.Partitions, sc.RetryMax, sc.FlushMsgs, sc.FlushBytes, sc.FlushFreq, sc.MaxMsgs, sc.MaxMsgByte,
-		sc.Idempotent, sc.Acks, sc.Version, sc.ChanBuf, sc.Codec, sc.Icepts, sc.PanicIcept, len(sc.Msgs), sc.CloseAfter, strings.Join(fs, ","), sc.Sync) + fmt.Sprintf(" latency=%dms growBy=%d recycle=%d errorsOff=%v", sc.LatencyMs, sc.GrowBy, sc.Recycle, sc.ErrorsOff)
+		sc.Idempotent, sc.Acks, sc.Version, sc.ChanBuf, sc.Codec, sc.Icepts, sc.PanicIcept, len(sc.Msgs), sc.CloseAfter, strings.Join(fs, ","), sc.Sync) + fmt.Sprintf(" latency=%dms growBy=%d recycle=%d errorsOff=%v flipPartitioner=%v", sc.LatencyMs, sc.GrowBy, sc.Recycle, sc.ErrorsOff, sc.FlipPartitioner)
 }
 
 func payload(id, n int) []byte {
@@ -487,6 +499,9 @@ func Run(sc *Scenario) *Result {
 	cfg.Producer.RequiredAcks = sc.Acks
 	cfg.Producer.Compression = sc.Codec
 	cfg.Producer.Partitioner = sarama.NewManualPartitioner
+	if sc.FlipPartitioner {
+		cfg.Producer.Partitioner = func(string) sarama.Partitioner { return &flipPartitioner{asked: map[int]int32{}} }
+	}
 	cfg.ChannelBufferSize = sc.ChanBuf
 	cfg.Net.ReadTimeout = 150 * time.Millisecond
 	cfg.Net.DialTimeout = 500 * time.Millisecond
@@ -825,6 +840,19 @@ func runAsync(sc *Scenario, cfg *sarama.Config, sim *sarama.VerifSim, msgs []*sa
 		res.CloseHang = true
 	}
 }
+
+// flipPartitioner does not require consistency.  Asked for the first time about a message it answers the partition the
+// message names (all partitions are writable in its scenarios, so index = id); asked again about the same message it
+// answers the next partition - the producer asks once per message, a retried message stays where it was numbered.
+type flipPartitioner struct{ asked map[int]int32 }
+
+func (f *flipPartitioner) Partition(m *sarama.ProducerMessage, n int32) (int32, error) {
+	id, _ := m.Metadata.(int)
+	k := f.asked[id]
+	f.asked[id] = k + 1
+	return (m.Partition + k) % n, nil
+}
+func (f *flipPartitioner) RequiresConsistency() bool { return false }
 
 // droppedIDs: ids of submitted messages for which returnError ran with at least minRetries retries (hook event ret.err)
 func droppedIDs(res *Result, minRetries int) []int {
